@@ -2,7 +2,7 @@
    iteration order at the modelled order-sensitive sites).
    Model: Gen/PermInv.v. A map's iteration order is an arbitrary permutation parameter pi. *)
 From Coq Require Import List ZArith Bool Sorting.Permutation Sorting.Sorted.
-From TM Require Import Gen.PermInv Gen.PermInv_proofs.
+From TM Require Import Gen.PermInv Gen.PermInv_proofs Gen.PermInv2 Gen.PermInv2_proofs.
 Import ListNotations.
 Local Open Scope Z_scope.
 
@@ -43,10 +43,61 @@ Theorem C18_sort_and_dedup_permutation_invariant :
   forall l1 l2, Permutation l1 l2 -> sort_and_dedup l1 = sort_and_dedup l2.
 Proof. exact sort_and_dedup_invariant. Qed.
 
-(* NOT modelled (partial): topoSort and resolveTokenComments (Tier 2); every other map-range site of the
-   repository is covered by the reviewed inventory harness/mapsites.json (classification by reading, not by
-   proof); scheduler- and runtime-level nondeterminism is outside any Gallina model and only touched by the
-   regeneration search (same process, subprocesses with different GOMAXPROCS, committed files). *)
+(* ---- round 2: the remaining classes of the inventory, each backed by a theorem (model Gen/PermInv2.v) ---- *)
+
+(* "writes-per-key", "writes-into-map", "in-place-per-key", "commutative-accumulation": a loop that stores
+   target[k] = v for every entry (k, v) of the map it ranges over. Whatever the target held before, for any
+   two iteration orders the target is the same afterwards, provided entries with the same key carry the same
+   value (always true for the entries of a Go map; BitSet.Set(k) and m[k] = true may repeat a key). *)
+Theorem C18_keyed_writes_commute :
+  forall (V : Type) (pi1 pi2 : list (Z * V)),
+  (forall k v v', In (k, v) pi1 -> In (k, v') pi1 -> v = v') ->
+  Permutation pi1 pi2 -> forall target x, apply_writes pi1 target x = apply_writes pi2 target x.
+Proof. exact @writes_commute. Qed.
+
+(* compiler/lexer.go resolveTokenComments: for every rule list, the comments map built by the first loop has
+   distinct keys, so the second loop (range over that map) gives every symbol the same Comment under any two
+   iteration orders. *)
+Theorem C18_token_comments_permutation_invariant :
+  forall rules pi1 pi2,
+  Permutation (token_comments rules) pi1 -> Permutation (token_comments rules) pi2 ->
+  forall syms x, apply_writes pi1 syms x = apply_writes pi2 syms x.
+Proof. exact resolve_token_comments_invariant. Qed.
+
+(* "sorted-after" with sort.Strings (gen/post_ts.go ExtractTsImports twice, grammar.go ActionVars.String twice):
+   duplicates allowed. *)
+Theorem C18_sort_strings_permutation_invariant :
+  forall l1 l2, Permutation l1 l2 -> sort_strings l1 = sort_strings l2.
+Proof. exact sort_strings_invariant. Qed.
+
+(* gen/post_go.go ExtractGoImports: the values of a map keyed by import path, sorted with "standard packages
+   first, then by path", for ANY classification isStdPackage. *)
+Theorem C18_go_imports_permutation_invariant :
+  forall (std : list Z -> bool) pi1 pi2,
+  NoDup (map snd pi1) -> Permutation pi1 pi2 -> go_imports std pi1 = go_imports std pi2.
+Proof. exact go_imports_invariant. Qed.
+
+(* gen/funcs.go reverseLookup ("unique-match"): the first key whose value is i does not depend on the
+   iteration order when the map is injective (Remap: rule position -> RHS index). *)
+Theorem C18_reverse_lookup_permutation_invariant :
+  forall pi1 pi2 i, NoDup (map snd pi1) -> Permutation pi1 pi2 -> reverse_lookup pi1 i = reverse_lookup pi2 i.
+Proof. exact reverse_lookup_invariant. Qed.
+
+(* syntax/types.go topoSort (no map is iterated; the rows arrive in the order in which mergePhrases met the
+   fields): the bucket sort by height followed by the sort by identity inside each bucket depends only on the
+   SET of rows (height, identity, fields) with distinct identities - any other encounter order gives the same
+   field order. (The heights are computed by the memoised walk `heights`, modelled and compared with the code;
+   that they are the longest-path heights for acyclic graphs is checked by the oracle, not proved.) *)
+Theorem C18_topo_order_permutation_invariant :
+  forall (P : Type) (rows1 rows2 : list (row P)),
+  NoDup (map row_id rows1) -> Permutation rows1 rows2 -> topo_order rows1 = topo_order rows2.
+Proof. exact @topo_order_invariant. Qed.
+
+(* NOT modelled (partial): the two out-of-scope sites and the diagnostics-order-only site of the inventory, the
+   injectivity of Remap (assumption of reverse_lookup), the depth walk of topoSort on cyclic graphs (its result
+   depends on the encounter order, which is a deterministic slice order); scheduler- and runtime-level
+   nondeterminism is outside any Gallina model and only touched by the regeneration search (same process,
+   subprocesses with different GOMAXPROCS, committed files). *)
 
 Example C18_examples :
   let m := fun s : list Z => Z.of_nat (length s) in
@@ -65,3 +116,22 @@ Print Assumptions C18_isort_sorts.
 Print Assumptions C18_string_switch_permutation_invariant.
 Print Assumptions C18_trie_collection_permutation_invariant.
 Print Assumptions C18_sort_and_dedup_permutation_invariant.
+
+Example C18_round2_examples :
+  (* two iteration orders of the comments map of T1: "if", T2: "a" / "b" (differ -> ""), T3: "x" *)
+  let rules := [(1, [105;102]); (2, [97]); (3, [120]); (2, [98])] in
+  token_comments rules = [(1, [105;102]); (2, []); (3, [120])] /\
+  (* topoSort rows: heights 1,0,0 with identities "b","c","a" -> a, c, b *)
+  map row_id (topo_order [(1%nat, [98], tt); (0%nat, [99], tt); (0%nat, [97], tt)]) = [[97]; [99]; [98]] /\
+  topo_sort [[98]; [99]; [97]] [[1%nat; 2%nat]; []; []] = [[97]; [99]; [98]] /\
+  reverse_lookup [(1, 0); (3, 1); (4, 2)] 1 = 3 /\ reverse_lookup [(4, 2); (3, 1); (1, 0)] 1 = 3 /\
+  go_imports (fun p => match p with 102 :: _ => true | _ => false end) [([], [103]); ([], [102;109;116]); ([], [97;46;98])]
+    = [([], [102;109;116]); ([], [97;46;98]); ([], [103])].
+Proof. vm_compute. repeat split; reflexivity. Qed.
+
+Print Assumptions C18_keyed_writes_commute.
+Print Assumptions C18_token_comments_permutation_invariant.
+Print Assumptions C18_sort_strings_permutation_invariant.
+Print Assumptions C18_go_imports_permutation_invariant.
+Print Assumptions C18_reverse_lookup_permutation_invariant.
+Print Assumptions C18_topo_order_permutation_invariant.
